@@ -59,6 +59,9 @@ pub fn alphabet() -> Vec<Value> {
         Value::Map(vec![(d("1"), d("2"))]),
         Value::None,
     ]);
+    // (appended: other code addresses earlier entries by index) fractions and whole numbers
+    // written with 10 and 20 decimals: integrality decided on anything but the value goes wrong here
+    v.extend([d("2.5000000000"), d("1.50000000000000000000"), d("3.00000000000000000000")]);
     v
 }
 
